@@ -62,14 +62,21 @@ type rec struct {
 	peek   bool  // a Counters() call: touches every group, carries no verdict
 }
 
+type passRec struct {
+	t    int64
+	fine string
+}
+
+// one state per coarse group (the implementation may well keep one counter for it);
+// the fine identity only decides which earlier passes count against the upper bound
 type groupState struct {
 	curW     int64
 	lastT    int64
 	seen     bool
 	staleEnd int64 // end of the last window opened under an earlier window size
 	stale    bool
-	dead     bool    // spill-over was enabled for this group at some point
-	passes   []int64 // instants of the calls that proceeded
+	dead     bool // spill-over or a non-positive window size was used for this group
+	passes   []passRec
 }
 
 type verdictIssue struct {
@@ -77,9 +84,19 @@ type verdictIssue struct {
 	text string
 }
 
-// replays the calls of one grouping and returns over-admissions under
-// right-closed windows, under left-closed windows, and unjustified rejections
-func judge(recs []rec, id func(rec) string) (overR, overL, unjust []verdictIssue) {
+func (g *groupState) observeWindow(now, w int64) {
+	if g.seen && g.curW != w {
+		e := floorDiv(g.lastT, g.curW)*g.curW + g.curW
+		if !g.stale || e > g.staleEnd {
+			g.staleEnd, g.stale = e, true
+		}
+	}
+	g.curW, g.lastT, g.seen = w, now, true
+}
+
+// replays the calls and returns over-admissions under right-closed windows, under
+// left-closed windows, and unjustified rejections
+func judge(recs []rec) (overR, overL, unjust []verdictIssue) {
 	gs := map[string]*groupState{}
 	for _, r := range recs {
 		if r.peek {
@@ -90,35 +107,22 @@ func judge(recs []rec, id func(rec) string) (overR, overL, unjust []verdictIssue
 			}
 			continue
 		}
-		g := gs[id(r)]
+		g := gs[r.coarse]
 		if g == nil {
 			g = &groupState{}
-			gs[id(r)] = g
+			gs[r.coarse] = g
 		}
 		if !r.judge || r.w <= 0 {
-			g.dead = true // also after a non-positive window size: nothing definite follows
-			// still part of the group's history
+			g.dead = true // nothing definite follows for this group
 			if r.pass {
-				g.passes = append(g.passes, r.now)
+				g.passes = append(g.passes, passRec{r.now, r.fine})
 			}
 			if r.w > 0 {
-				if g.seen && g.curW != r.w {
-					e := floorDiv(g.lastT, g.curW)*g.curW + g.curW
-					if !g.stale || e > g.staleEnd {
-						g.staleEnd, g.stale = e, true
-					}
-				}
-				g.curW, g.lastT, g.seen = r.w, r.now, true
+				g.observeWindow(r.now, r.w)
 			}
 			continue
 		}
-		if g.seen && g.curW != r.w {
-			e := floorDiv(g.lastT, g.curW)*g.curW + g.curW
-			if !g.stale || e > g.staleEnd {
-				g.staleEnd, g.stale = e, true
-			}
-		}
-		g.curW, g.lastT, g.seen = r.w, r.now, true
+		g.observeWindow(r.now, r.w)
 
 		fl := floorDiv(r.now, r.w) * r.w
 		lbL := fl // left-closed window [fl, fl+w)
@@ -131,36 +135,38 @@ func judge(recs []rec, id func(rec) string) (overR, overL, unjust []verdictIssue
 		settled := !g.dead && (!g.stale || g.staleEnd <= lbC)
 		if settled {
 			var nR, nL, nC int64
-			for _, t := range g.passes {
-				if t > lbR {
-					nR++
+			for _, p := range g.passes {
+				if p.fine == r.fine {
+					if p.t > lbR {
+						nR++
+					}
+					if p.t >= lbL {
+						nL++
+					}
 				}
-				if t >= lbL {
-					nL++
-				}
-				if t >= lbC {
+				if p.t >= lbC {
 					nC++
 				}
 			}
 			if r.pass {
 				if nR >= r.hi {
 					overR = append(overR, verdictIssue{r.idx, fmt.Sprintf(
-						"call #%d of %q at %d ns proceeded as number %d of its window (%d,%d], share %d",
-						r.idx, id(r), r.now, nR+1, lbR, lbR+r.w, r.hi)})
+						"call #%d of %s at %d ns proceeded as number %d of its window (%d,%d], share %d",
+						r.idx, r.fine, r.now, nR+1, lbR, lbR+r.w, r.hi)})
 				}
 				if nL >= r.hi {
 					overL = append(overL, verdictIssue{r.idx, fmt.Sprintf(
-						"call #%d of %q at %d ns proceeded as number %d of its window [%d,%d), share %d",
-						r.idx, id(r), r.now, nL+1, lbL, lbL+r.w, r.hi)})
+						"call #%d of %s at %d ns proceeded as number %d of its window [%d,%d), share %d",
+						r.idx, r.fine, r.now, nL+1, lbL, lbL+r.w, r.hi)})
 				}
 			} else if nC < r.lo {
 				unjust = append(unjust, verdictIssue{r.idx, fmt.Sprintf(
-					"call #%d of %q at %d ns rejected with %d of %d used in [%d,%d]",
-					r.idx, id(r), r.now, nC, r.lo, lbC, fl+r.w)})
+					"call #%d of %s at %d ns rejected with %d of %d used in [%d,%d]",
+					r.idx, r.coarse, r.now, nC, r.lo, lbC, fl+r.w)})
 			}
 		}
 		if r.pass {
-			g.passes = append(g.passes, r.now)
+			g.passes = append(g.passes, passRec{r.now, r.fine})
 		}
 	}
 	return
@@ -168,8 +174,7 @@ func judge(recs []rec, id func(rec) string) (overR, overL, unjust []verdictIssue
 
 func verdictHits(recs []rec, kase any, site string) []c.Hit {
 	var hits []c.Hit
-	overR, overL, _ := judge(recs, func(r rec) string { return r.fine })
-	_, _, unjust := judge(recs, func(r rec) string { return r.coarse })
+	overR, overL, unjust := judge(recs)
 	if len(overR) > 0 && len(overL) > 0 {
 		hits = append(hits, c.Hit{
 			Signature: "over-admission:" + site,
